@@ -12,23 +12,39 @@ import (
 
 type BasicPrivateIssuer struct {
 	tokenKey *oprf.PrivateKey
+	// serialized tokenKey. circl caches the public key inside the private key lazily
+	// and normalises the P-384 public key element in place every time it is
+	// serialized (which Evaluate and TokenKeyID do), so a shared key object is written
+	// to by concurrent calls. Every call therefore works on its own copy of the key.
+	tokenKeyEnc []byte
 }
 
 func NewBasicPrivateIssuer(key *oprf.PrivateKey) *BasicPrivateIssuer {
-	// oprf.PrivateKey caches its public key lazily and without synchronisation;
-	// compute it now so that concurrent use of the issuer only reads it.
-	key.Public()
+	tokenKeyEnc, err := key.MarshalBinary()
+	if err != nil {
+		panic(err)
+	}
 	return &BasicPrivateIssuer{
-		tokenKey: key,
+		tokenKey:    key,
+		tokenKeyEnc: tokenKeyEnc,
 	}
 }
 
+// key returns a private copy of the token key for one call.
+func (i *BasicPrivateIssuer) key() *oprf.PrivateKey {
+	key := new(oprf.PrivateKey)
+	if err := key.UnmarshalBinary(oprf.SuiteP384, i.tokenKeyEnc); err != nil {
+		panic(err)
+	}
+	return key
+}
+
 func (i *BasicPrivateIssuer) TokenKey() *oprf.PublicKey {
-	return i.tokenKey.Public()
+	return i.key().Public()
 }
 
 func (i *BasicPrivateIssuer) TokenKeyID() []byte {
-	pkIEnc, err := i.tokenKey.Public().MarshalBinary()
+	pkIEnc, err := i.key().Public().MarshalBinary()
 	if err != nil {
 		panic(err)
 	}
@@ -37,7 +53,7 @@ func (i *BasicPrivateIssuer) TokenKeyID() []byte {
 }
 
 func (i BasicPrivateIssuer) Evaluate(req *BasicPrivateTokenRequest) ([]byte, error) {
-	server := oprf.NewVerifiableServer(oprf.SuiteP384, i.tokenKey)
+	server := oprf.NewVerifiableServer(oprf.SuiteP384, i.key())
 
 	e := group.P384.NewElement()
 	err := e.UnmarshalBinary(req.BlindedReq)
@@ -74,7 +90,7 @@ func (i BasicPrivateIssuer) Type() uint16 {
 }
 
 func (i BasicPrivateIssuer) Verify(token tokens.Token) error {
-	server := oprf.NewVerifiableServer(oprf.SuiteP384, i.tokenKey)
+	server := oprf.NewVerifiableServer(oprf.SuiteP384, i.key())
 
 	tokenInput := token.AuthenticatorInput()
 	output, err := server.FullEvaluate(tokenInput)
